@@ -745,3 +745,31 @@ PROPS['C17'] = dict(
           "with Validation/BlobVersion), a foreign index version (index regenerated, same answers)"),
     assumptions=['the corpus was produced by the pinned tree plus the add-only hook commits (harness needs the probes)'],
 )
+
+
+def oracle_c16(res, i):
+    cmd = res['script'][i].split()
+    out = res['impl'][i]
+    if cmd[0] == 'toolsweep' and not out.startswith('sweep ok'):
+        return f'MISMATCH offline tools: {out}'
+    return None
+
+
+PROPS['C16'] = dict(
+    gen=lambda rng, tier: gen.tools_scenario(rng, size=tier),
+    p_cmds={'toolsweep', 'r', 'ram'}, oracle_cmds={'r', 'ram', 'states'}, py_oracle=oracle_c16,
+    count={'quick': 32, 'thorough': 300}, timeout=2400,
+    nontrivial=lambda lines: sum(1 for l in lines if l.startswith('w ')) >= 3,
+    features=lambda lines: kv_features(lines) | {'toolsweep'},
+    rule=("blobs and indexes produced by a random kv history (key length 4/8/33/128, metadata, markers, values "
+          "0..5000 bytes); then for every blob: validate_blob / validate_index / read_index accept it and report exactly "
+          "the blob's headers; a v0 image of it migrates back byte for byte; for 24 (quick) / 80 (thorough) damaged copies "
+          "(truncation inside the header / at the header end / inside data / one byte short, flipped key / flags / offset / "
+          "timestamp / checksum bytes, flipped data byte, blob magic) validate_blob rejects the copy, recovery (with and "
+          "without skipping) produces a blob that validates, holds every intact record before the damage (and after an "
+          "isolated damaged record when skipping), and a storage opened on it serves every record; truncated index copies "
+          "are rejected"),
+    assumptions=['flips of the length fields of a record header are not generated: bincode would try to allocate the '
+                 'claimed length (tools only) and abort the process; skipping past a header with damaged size fields cannot '
+                 'work without resynchronisation and is outside the generated damage'],
+)
